@@ -117,6 +117,13 @@ def gen_digital_state(repo):
     return m
 
 
+def gen_port(repo):
+    m = T.Module(f"{repo}/src/nitypes/waveform/_digital/_port.py", "Gen.Port")
+    m.translate_function("bit_mask", m.find_func(None, "bit_mask"), "bit_mask", [("n", "int")])
+    m.translate_function("_get_port_dtype", m.find_func(None, "_get_port_dtype"), "_get_port_dtype", [("mask", "int")])
+    return m
+
+
 MODULES = [
     # (output file, builder, dependencies by output name)
     ("TimeValueTuple", lambda repo, deps: gen_time_value_tuple(repo), []),
@@ -125,6 +132,7 @@ MODULES = [
      ["TimeValueTuple", "TimeDelta"]),
     ("BtDtypes", lambda repo, deps: gen_bt_dtypes(repo), []),
     ("DigitalState", lambda repo, deps: gen_digital_state(repo), []),
+    ("Port", lambda repo, deps: gen_port(repo), []),
 ]
 
 
